@@ -9,6 +9,8 @@ import JSV.Proofs.Tot
 import JSV.Proofs.TotUnmarshal
 import JSV.Proofs.TotFacts
 import JSV.Proofs.TotInfer
+import JSV.Proofs.ResNoPanic
+import JSV.Proofs.ResNoFuel
 import JSV.Props.C01
 import JSV.Props.C08
 import JSV.Props.C11
@@ -49,6 +51,135 @@ theorem checkStructure_tree (st : Store) (fuel : Nat) (root : NodeId) (infos : L
     checkStructure st fuel [(root, "")] [] = .ok infos →
       (infos.map (·.1)).Nodup ∧ ∀ id ∈ infos.map (·.1), (st.get? id).isSome = true :=
   fun h => checkStructure_accOK st fuel _ [] infos h ⟨List.nodup_nil, fun _ h => nomatch h⟩
+
+/-! ## Schema.Resolve
+
+`Go.resolve` is the whole of `(*Schema).Resolve` (without ValidateDefaults): checkStructure, checkLocal, resolveURIs,
+resolveRefs with the Loader and the `loaded` cache.  The `.panic` outcomes of the model are the nil map entries / nil
+pointers of the Go code (`rs.resolvedInfos[s]` for a schema the Resolved does not know, `info.base == nil`,
+`baseInfo.uri == nil`, a nil child met by `Schema.all`).
+
+Helper files: JSV/Proofs/ResTot.lean, ResBase.lean, ResNoPanic.lean (invariant `Inv`), ResNoFuel.lean (measure). -/
+
+/-- `Resolve` returns a Resolved or an error — never a panic — for every store (shared / cyclic / dangling child
+    pointers, malformed `$id` / `$ref`), every loader table (errors, nil documents, ill-formed documents, documents
+    that refer back, one document under several URIs), every base URI and every fuel, PROVIDED that documents with
+    different roots share no schema object (`docsDisjoint`: the model's stated assumption "fresh nodes per loader
+    document"; decidable, and trivially true without loader documents).
+
+    The hypothesis cannot be dropped: see `resolve_panic_reachable` below. -/
+theorem resolve_no_panic_partial (env : Go.Env) (fuel : Nat) (root : NodeId) (base : String)
+    (h : Go.RInv.docsDisjoint env root = true) : Go.resolve env fuel root base ≠ .panic :=
+  Go.RInv.resolve_ne_panic env fuel root base h
+
+/-- no hypothesis is needed without a Loader -/
+theorem resolve_no_panic_no_loader (env : Go.Env) (fuel : Nat) (root : NodeId) (base : String)
+    (h : env.loader = none) : Go.resolve env fuel root base ≠ .panic := by
+  apply resolve_no_panic_partial
+  unfold Go.RInv.docsDisjoint Go.RInv.docRoots
+  rw [h]
+  simp
+
+/-- `Resolve` terminates: fuel above the number of entries of the loader table is never exhausted — whatever the store
+    and the table (no hypothesis).  Reference cycles between documents end because every document is entered in the
+    `loaded` cache before its references are followed, so every recursive call caches a new URI of the table; inside
+    one document, checkStructure and resolveURIs meet every schema once. -/
+theorem resolve_no_fuel (env : Go.Env) (fuel : Nat) (root : NodeId) (base : String)
+    (h : fuel ≥ (env.loader.getD []).length + 1) : Go.resolve env fuel root base ≠ .fuel :=
+  Go.RInv.resolve_ne_fuel env fuel root base h
+
+/-- both together -/
+theorem resolve_total_partial (env : Go.Env) (fuel : Nat) (root : NodeId) (base : String)
+    (hd : Go.RInv.docsDisjoint env root = true) (hf : fuel ≥ (env.loader.getD []).length + 1) :
+    Go.resolve env fuel root base = .err ∨ ∃ rs, Go.resolve env fuel root base = .ok rs :=
+  (NoPF_iff _).1 ⟨resolve_no_panic_partial env fuel root base hd, resolve_no_fuel env fuel root base hf⟩
+
+/-! ### a reachable `.panic` of the model
+
+The model keeps ONE info record per schema object (`RState.infos`), Go one per (Resolved, schema).  When a loader
+document shares a schema object with the root, resolveURIs of the loader document overwrites the `base` of the shared
+schema; if moreover the Resolved that merged the loader document's records is replaced (its root is loaded a second
+time under another URI), the root's Resolved never learns the new base, and `resolveRef` on the shared schema reads
+`rs.resolvedInfos[base]` = nil.  In Go the root's Resolved has its own record for the shared schema (the merge does not
+overwrite), so this is a defect of the model's "one table" simplification outside its stated assumption, not of resolve.go.
+
+  root 0 = {allOf: [1, 2]},  1 = {$ref: "http://a/y"},  2 = {$ref: "#"}            (resolved under http://a/r)
+  y    3 = {allOf: [4, 5]},  4 = {$ref: "x"},           5 = {$ref: "http://b/y"}   (served for http://a/y AND http://b/y)
+  x    6 = {not: 2}          — shares schema 2 with the root                      (served for http://a/x)
+  w    7 = {}                                                                     (served for http://b/x)
+-/
+
+def pxStore : Store := #[
+  { allOf := some [1, 2] },
+  { ref := "http://a/y" },
+  { ref := "#" },
+  { allOf := some [4, 5] },
+  { ref := "x" },
+  { ref := "http://b/y" },
+  { not := some 2 },
+  { } ]
+
+def pxEnv : Go.Env :=
+  { st := pxStore, reOk := fun _ => true,
+    loader := some [("http://a/y", .doc 3), ("http://a/x", .doc 6), ("http://b/y", .doc 3), ("http://b/x", .doc 7)] }
+
+theorem resolve_panic_reachable : Go.resolve pxEnv 5 0 "http://a/r" = .panic := by
+  have h : (match Go.resolve pxEnv 5 0 "http://a/r" with
+      | .panic => true
+      | _ => false) = true := by decide +kernel
+  cases hr : Go.resolve pxEnv 5 0 "http://a/r" with
+  | panic => rfl
+  | ok _ => rw [hr] at h; cases h
+  | err => rw [hr] at h; cases h
+  | fuel => rw [hr] at h; cases h
+
+/-- so the unconditional statement is false in the model -/
+theorem resolve_no_panic_false :
+    ¬ ∀ (env : Go.Env) (fuel : Nat) (root : NodeId) (base : String), Go.resolve env fuel root base ≠ .panic :=
+  fun H => H pxEnv 5 0 "http://a/r" resolve_panic_reachable
+
+/-- the hypothesis of `resolve_no_panic_partial` is what fails: documents 0 and 6 share schema 2 -/
+example : Go.RInv.docsDisjoint pxEnv 0 = false := by decide +kernel
+example : Go.RInv.docNodes pxEnv 0 = [0, 1, 2] ∧ Go.RInv.docNodes pxEnv 6 = [6, 2] := by decide +kernel
+
+/-! ### non-vacuity: cyclic documents, nil documents
+
+A = `{"$ref": "http://x/b.json"}`, B = `{"$ref": "http://x/a.json"}`; the Loader serves both. -/
+
+def cyStore : Store := #[{ ref := "http://x/b.json" }, { ref := "http://x/a.json" }]
+
+def cyEnv : Go.Env :=
+  { st := cyStore, reOk := fun _ => true,
+    loader := some [("http://x/a.json", .doc 0), ("http://x/b.json", .doc 1)] }
+
+example : Go.RInv.docsDisjoint cyEnv 0 = true := by decide +kernel
+/-- A resolved under its own URI: A → B → (A: cached); the stated fuel (2 table entries + 1) gives a value -/
+example : ((Go.resolve cyEnv 3 0 "http://x/a.json").bind fun rs =>
+      .ok (rs.log, rs.infos.map fun e => (e.1, e.2.resolvedRef))) =
+    .ok (["http://x/b.json"], [(0, some 1), (1, some 0)]) := by decide +kernel
+example : ((Go.resolve cyEnv 1 0 "http://x/a.json").bind fun rs => .ok rs.log) = .fuel := by decide +kernel
+/-- A resolved under no URI: A → B → A (now as http://x/a.json) → (B: cached): three nested calls, so the bound
+    "table entries + 1" of `resolve_no_fuel` is attained — fuel 2 is not enough -/
+example : ((Go.resolve cyEnv 3 0 "").bind fun rs => .ok rs.log) = .ok ["http://x/b.json", "http://x/a.json"] := by
+  decide +kernel
+example : ((Go.resolve cyEnv 2 0 "").bind fun rs => .ok rs.log) = .fuel := by decide +kernel
+/-- the theorems on this universe -/
+example : Go.resolve cyEnv 3 0 "" = .err ∨ ∃ rs, Go.resolve cyEnv 3 0 "" = .ok rs :=
+  resolve_total_partial cyEnv 3 0 "" (by decide +kernel) (by decide)
+
+/-- a Loader that returns (nil, nil): an error, not a nil dereference -/
+def nilEnv : Go.Env :=
+  { st := cyStore, reOk := fun _ => true, loader := some [("http://x/b.json", .nilDoc)] }
+
+example : (Go.resolve nilEnv 2 0 "").verdict = some false := by decide +kernel
+example : Go.RInv.docsDisjoint nilEnv 0 = true := by decide +kernel
+/-- a Loader that fails, a missing Loader, a dangling child pointer (nil subschema), a malformed `$ref`: errors -/
+example : (Go.resolve { nilEnv with loader := some [("http://x/b.json", .fail)] } 2 0 "").verdict = some false := by
+  decide +kernel
+example : (Go.resolve { nilEnv with loader := none } 1 0 "").verdict = some false := by decide +kernel
+example : (Go.resolve { nilEnv with st := #[{ not := some 7 }] } 1 0 "").verdict = some false := by decide +kernel
+example : (Go.resolve { nilEnv with st := #[{ ref := "http://[::1" }] } 1 0 "").verdict = some false := by
+  decide +kernel
 
 /-! ## equalValue, hashValue -/
 
